@@ -11,6 +11,8 @@ backend operation used by the fragment F does to such a description: `applyGate`
 (mask constant on every range), `measureInto` (binomial split of every range).
 -/
 set_option linter.unusedSectionVars false
+set_option linter.unusedSimpArgs false
+set_option linter.unusedVariables false
 namespace Q1t.Sim.SimGF
 open Q1t Q1t.Sim Q1t.Spec
 
@@ -257,4 +259,201 @@ theorem applyConditional_eq (hsem : GateSemOK α n valid) (hrun : GateRuns α n 
     simp only [mkState] at this
     simp only [Function.comp, mapCol, this]
 end cond
+
+/-! ### measurement of one qubit -/
+
+theorem writeRange_mid (pre tail : List Nat) (c n0 w cbit : Nat) (h : n0 ≤ c) :
+    writeRange (pre ++ List.replicate c w ++ tail) pre.length c n0 cbit =
+      pre ++ (List.replicate n0 (setBitTo w cbit false) ++ List.replicate (c - n0) (setBitTo w cbit true)) ++ tail := by
+  unfold writeRange
+  apply List.ext_getElem
+  · simp; omega
+  · intro i h1 h2
+    simp only [List.getElem_map, List.getElem_zipIdx, Nat.zero_add]
+    simp only [List.length_map, List.length_zipIdx, List.length_append, List.length_replicate] at h1
+    by_cases hi : i < pre.length
+    · rw [if_neg (by omega), if_neg (by omega)]
+      simp [List.getElem_append, hi]
+    · by_cases hi2 : i < pre.length + n0
+      · rw [if_pos (by omega)]
+        simp only [List.getElem_append, List.length_append, List.length_replicate]
+        simp [hi, hi2, show i < pre.length + c by omega, show i - pre.length < n0 by omega,
+          show i < pre.length + (n0 + (c - n0)) by omega]
+      · by_cases hi3 : i < pre.length + c
+        · rw [if_neg (by omega), if_pos (by omega)]
+          simp only [List.getElem_append, List.length_append, List.length_replicate]
+          simp [hi, hi3, show ¬ i - pre.length < n0 by omega,
+            show i < pre.length + (n0 + (c - n0)) by omega]
+        · rw [if_neg (by omega), if_neg (by omega)]
+          simp only [List.getElem_append, List.length_append, List.length_replicate]
+          simp [hi, hi3, show ¬ i < pre.length + (n0 + (c - n0)) by omega]
+          congr 1; omega
+
+section meas
+variable [Zero α] [One α] [Add α] [Mul α] [Neg α] [Sub α] [SimAmp α]
+
+/-- what a measurement of qubit `q` with `n0` zeros does to one range; `wf w o` = the new word -/
+def splitRng (n q : Nat) (wf : Nat → Bool → Nat) (r : Rng α) (n0 : Nat) : List (Rng α) :=
+  let w0 := w0Of n q r.2.1
+  let r0 : List α × Nat := (VecState.collapseCol n q r.2.1 false w0, wf r.2.2 false)
+  let r1 : List α × Nat := (VecState.collapseCol n q r.2.1 true (1 - w0), wf r.2.2 true)
+  if n0 = r.1 then [(r.1, r0)] else if n0 = 0 then [(r.1, r1)] else [(n0, r0), (r.1 - n0, r1)]
+
+def splitAll (n q : Nat) (wf : Nat → Bool → Nat) : List (Rng α) → List Nat → List (Rng α)
+  | r :: rs, n0 :: ns => splitRng n q wf r n0 ++ splitAll n q wf rs ns
+  | _, _ => []
+
+/-- the register in which every shot of a range carries `f (word of the range)`; `mkReg = mkRegF id`.
+(`reset` measures into a scratch register: there the range description keeps the true word and the hidden
+outcome together, and two different `f` read them off.) -/
+def mkRegF (f : Nat → Nat) (rs : List (Rng α)) : List Nat := rs.flatMap fun r => List.replicate r.1 (f r.2.2)
+
+theorem mkReg_eq (rs : List (Rng α)) : mkReg rs = mkRegF id rs := rfl
+
+theorem mkRegF_length (f : Nat → Nat) (rs : List (Rng α)) : (mkRegF f rs).length = (rs.map (·.1)).sum :=
+  mkReg_map_length rs _
+
+theorem mkReg_length (rs : List (Rng α)) : (mkReg rs).length = (rs.map (·.1)).sum :=
+  mkReg_map_length rs _
+
+theorem mkRegF_append (f : Nat → Nat) (a b : List (Rng α)) : mkRegF f (a ++ b) = mkRegF f a ++ mkRegF f b := by
+  simp [mkRegF]
+
+theorem mkReg_append (a b : List (Rng α)) : mkReg (a ++ b) = mkReg a ++ mkReg b := by
+  simp [mkReg]
+
+theorem mkRegF_splitRng (f : Nat → Nat) (n q : Nat) (wf : Nat → Bool → Nat) (r : Rng α) (n0 : Nat) (h : n0 ≤ r.1) :
+    mkRegF f (splitRng n q wf r n0) =
+      List.replicate n0 (f (wf r.2.2 false)) ++ List.replicate (r.1 - n0) (f (wf r.2.2 true)) := by
+  unfold splitRng
+  by_cases h1 : n0 = r.1
+  · simp [h1, mkRegF]
+  · by_cases h2 : n0 = 0
+    · have h3 : ¬ 0 = r.1 := by omega
+      simp [h1, h2, h3, mkRegF]
+    · simp [h1, h2, mkRegF]
+
+/-- the items of the second loop of `measure_into` -/
+def mkItems (n q : Nat) (rs : List (Rng α)) (ns : List Nat) : List (List α × α × Nat × Nat) :=
+  List.zipWith (fun r n0 => (r.2.1, w0Of n q r.2.1, r.1, n0)) rs ns
+
+theorem mkItems_cons (n q : Nat) (r : Rng α) (rs : List (Rng α)) (n0 : Nat) (ns : List Nat) :
+    mkItems n q (r :: rs) (n0 :: ns) = (r.2.1, w0Of n q r.2.1, r.1, n0) :: mkItems n q rs ns := rfl
+theorem mkItems_nil (n q : Nat) : mkItems (α := α) n q [] [] = [] := rfl
+
+theorem measureLoop_spec (n q cbit : Nat) (f : Nat → Nat) (wf : Nat → Bool → Nat) :
+    ∀ (rs : List (Rng α)) (ns : List Nat) (pre tail : List Nat)
+    (cols : List (List α)) (counts : List Nat), List.Forall₂ (fun r n0 => n0 ≤ r.1) rs ns →
+    (∀ r ∈ rs, ∀ o, f (wf r.2.2 o) = setBitTo (f r.2.2) cbit o) →
+    VecState.measureLoop n q cbit (mkItems n q rs ns) pre.length (pre ++ mkRegF f rs ++ tail) cols counts =
+      (pre ++ mkRegF f (splitAll n q wf rs ns) ++ tail,
+       cols ++ (splitAll n q wf rs ns).map (·.2.1),
+       counts ++ (splitAll n q wf rs ns).map (·.1)) := by
+  intro rs ns pre tail cols counts hv
+  induction hv generalizing pre cols counts with
+  | nil => intro _; simp [mkItems_nil, VecState.measureLoop, splitAll, mkRegF]
+  | @cons r n0 rs ns hle _ ih =>
+    intro hwf
+    have ih := fun pre cols counts => ih pre cols counts (fun x hx => hwf x (by simp [hx]))
+    have hreg : pre ++ mkRegF f (r :: rs) ++ tail = pre ++ List.replicate r.1 (f r.2.2) ++ (mkRegF f rs ++ tail) := by
+      simp [mkRegF]
+    have hw := writeRange_mid pre (mkRegF f rs ++ tail) r.1 n0 (f r.2.2) cbit hle
+    have hsp := mkRegF_splitRng f n q wf r n0 hle
+    rw [hwf r (by simp) false, hwf r (by simp) true] at hsp
+    have hnext : ∀ (cols' : List (List α)) (counts' : List Nat),
+        VecState.measureLoop n q cbit (mkItems n q rs ns) (pre.length + r.1)
+          (pre ++ (List.replicate n0 (setBitTo (f r.2.2) cbit false) ++ List.replicate (r.1 - n0) (setBitTo (f r.2.2) cbit true))
+            ++ (mkRegF f rs ++ tail)) cols' counts' =
+          (pre ++ (List.replicate n0 (setBitTo (f r.2.2) cbit false) ++ List.replicate (r.1 - n0) (setBitTo (f r.2.2) cbit true))
+              ++ mkRegF f (splitAll n q wf rs ns) ++ tail,
+           cols' ++ (splitAll n q wf rs ns).map (·.2.1),
+           counts' ++ (splitAll n q wf rs ns).map (·.1)) := by
+      intro cols' counts'
+      have := ih (pre ++ (List.replicate n0 (setBitTo (f r.2.2) cbit false) ++ List.replicate (r.1 - n0) (setBitTo (f r.2.2) cbit true)))
+        cols' counts'
+      have hl : (pre ++ (List.replicate n0 (setBitTo (f r.2.2) cbit false) ++ List.replicate (r.1 - n0) (setBitTo (f r.2.2) cbit true))).length
+          = pre.length + r.1 := by simp; omega
+      rw [hl] at this
+      rw [← List.append_assoc _ (mkRegF f rs) tail]
+      exact this
+    simp only [mkItems_cons, VecState.measureLoop, hreg, hw]
+    simp only [splitAll, mkRegF_append, hsp, List.map_append]
+    by_cases h1 : n0 = r.1
+    · rw [if_pos h1, hnext]
+      simp [splitRng, h1, List.append_assoc]
+    · by_cases h2 : n0 = 0
+      · rw [if_neg h1, if_pos h2]
+        rw [hnext]
+        have h3 : ¬ 0 = r.1 := by omega
+        simp [splitRng, h2, h3, List.append_assoc]
+      · rw [if_neg h1, if_neg h2, hnext]
+        simp [splitRng, h1, h2, List.append_assoc]
+
+
+variable {n N : Nat}
+
+theorem forall₂_length {β γ : Type} {R : β → γ → Prop} {l1 : List β} {l2 : List γ} (h : List.Forall₂ R l1 l2) :
+    l1.length = l2.length := by
+  induction h with
+  | nil => rfl
+  | cons _ _ ih => simp [ih]
+
+/-- `measure_into` on a homogeneous state (register `mkRegF f rs`): one binomial draw per range, then every
+range is split; `wf` is the word update of the description, compatible with the bit written -/
+theorem measureIntoF_eq {rs : List (Rng α)} (h : Shape n N rs) {q cbit : Nat} (hq : q < n) (hc : cbit < 64)
+    (f : Nat → Nat) (wf : Nat → Bool → Nat)
+    (hwf : ∀ r ∈ rs, ∀ o, f (wf r.2.2 o) = setBitTo (f r.2.2) cbit o) :
+    ∃ body : List Nat → Prog α (VecState α × List Nat),
+      VecState.measureInto (mkState n N rs) q cbit (mkRegF f rs) =
+        VecState.drawAll (rs.map fun r => (w0Of n q r.2.1, r.1)) body ∧
+      ∀ ns, List.Forall₂ (fun r n0 => n0 ≤ r.1) rs ns →
+        body ns = .pure (mkState n N (splitAll n q wf rs ns), mkRegF f (splitAll n q wf rs ns)) := by
+  refine ⟨fun n0s =>
+      if ¬ shiftOk cbit then Prog.panic "1 << cbit" else
+      let items := (List.range (mkState n N rs).nrCols).map fun k =>
+        ((mkState n N rs).column k, (VecState.weights0 (mkState n N rs) q).getD k 0,
+          (mkState n N rs).counts.getD k 0, n0s.getD k 0)
+      let (res', cols, counts) := VecState.measureLoop (mkState n N rs).nrBits q cbit items 0 (mkRegF f rs) [] []
+      .pure ({ (mkState n N rs) with states := VecState.ofColumns (mkState n N rs).nrBits cols, counts := counts }, res'),
+    ?_, ?_⟩
+  · unfold VecState.measureInto
+    rw [if_neg (by simp [mkState]; omega)]
+    rw [if_neg (by rw [mkRegF_length, h.sum]; simp [mkState])]
+    have hz : (VecState.weights0 (mkState n N rs) q).zip (mkState n N rs).counts
+        = rs.map fun r => (w0Of n q r.2.1, r.1) := by
+      simp only [weights0_eq, cols_mkState h]
+      simp only [mkState, List.map_map]
+      rw [List.zip_map']
+      rfl
+    simp only [hz]
+  · intro ns hv
+    have hl := forall₂_length hv
+    have hitems : ((List.range (mkState n N rs).nrCols).map fun k =>
+        ((mkState n N rs).column k, (VecState.weights0 (mkState n N rs) q).getD k 0,
+          (mkState n N rs).counts.getD k 0, ns.getD k 0)) = mkItems n q rs ns := by
+      apply List.ext_getElem
+      · simp [mkItems, VecState.nrCols, mkState, hl]
+      · intro k h1 h2
+        have hk : k < rs.length := by simpa [VecState.nrCols, mkState] using h1
+        have hk2 : k < ns.length := by omega
+        simp only [List.getElem_map, List.getElem_range, mkItems, List.getElem_zipWith]
+        rw [column_mkState h k hk, weights0_eq, cols_mkState h]
+        simp [mkState, List.getD_eq_getElem?_getD, hk, hk2]
+    simp only [shiftOk, hc, decide_true, not_true_eq_false, if_false]
+    rw [hitems]
+    have := measureLoop_spec n q cbit f wf rs ns [] [] [] [] hv hwf
+    simp only [List.nil_append, List.append_nil, List.length_nil] at this
+    simp only [show (mkState n N rs).nrBits = n from rfl]
+    rw [this]
+    rfl
+
+theorem measureInto_eq {rs : List (Rng α)} (h : Shape n N rs) {q cbit : Nat} (hq : q < n) (hc : cbit < 64) :
+    ∃ body : List Nat → Prog α (VecState α × List Nat),
+      VecState.measureInto (mkState n N rs) q cbit (mkReg rs) =
+        VecState.drawAll (rs.map fun r => (w0Of n q r.2.1, r.1)) body ∧
+      ∀ ns, List.Forall₂ (fun r n0 => n0 ≤ r.1) rs ns →
+        body ns = .pure (mkState n N (splitAll n q (fun w o => setBitTo w cbit o) rs ns),
+                         mkReg (splitAll n q (fun w o => setBitTo w cbit o) rs ns)) :=
+  measureIntoF_eq h hq hc id (fun w o => setBitTo w cbit o) (fun _ _ _ => rfl)
+end meas
 end Q1t.Sim.SimGF
